@@ -3,7 +3,8 @@ CONSTANTS
   Mode = "sample"
   NN = 3
   PP = 1
-  Samples = 300
+  Samples = 200
+  Chains = 6
 INVARIANT Theorems
 CONSTRAINT Emit
 CHECK_DEADLOCK FALSE
